@@ -121,11 +121,14 @@ def replay_one(sc, streams, order):
             r = m.minimize(sc["var"]) if sc["mode"] == "min" else m.maximize(sc["var"])
             out["none"] = r is None
             out["ret"] = [] if r is None else [int(v) for v in r]
-        st = m.get_statistics()
-        out["agg"] = [int(v) for v in st.values()]
     except Exception as e:  # noqa
         out["raised"] = type(e).__name__ + ":" + str(e)[:80]
-        out["agg"] = []
+    out["agg"] = []
+    if not out["raised"]:
+        try:
+            out["agg"] = [int(v) for v in m.get_statistics().values()]
+        except Exception as e:  # noqa: the aggregated statistics are part of the observable result
+            out["agg"] = []
     return out
 
 
